@@ -62,7 +62,9 @@ static void op_EcdsaNormalize(const jv *in, jout *out) {
     unsigned char sig64[64]; secp256k1_ecdsa_signature a, b; int pret, ret;
     jv_need(in, "sig", sig64, 64);
     pret = secp256k1_ecdsa_signature_parse_compact(CTX, &a, sig64);
-    ret = secp256k1_ecdsa_signature_normalize(CTX, &b, &a);
+    /* "alias": 1 = normalised in place (sigout == sigin, the usual caller idiom; spec/api/Aliasing.tla) */
+    if (jv_int(in, "alias", 0)) { b = a; ret = secp256k1_ecdsa_signature_normalize(CTX, &b, &b); }
+    else ret = secp256k1_ecdsa_signature_normalize(CTX, &b, &a);
     secp256k1_ecdsa_signature_serialize_compact(CTX, sig64, &b);
     jo_int(out, "pret", pret); jo_int(out, "ret", ret); jo_bytes(out, "sig", sig64, 64);
 }
